@@ -49,6 +49,8 @@ type built struct {
 	Objects map[string]any
 	// Expect is the branch task the model routes to ("" = none, error expected)
 	Expect string
+	// Uneval: some condition cannot be evaluated (error traces about it are expected)
+	Uneval bool
 }
 
 func build(d descriptor) *built {
@@ -126,6 +128,13 @@ func build(d descriptor) *built {
 			bt.Vars[v] = truth
 			bt.Vars[w] = int64(3)
 			f.Cond = &gen.Cond{Op: "and", L: gen.BoolVar(v), R: &gen.Cond{Op: "or", L: &gen.Cond{Op: "eq", Var: w, K: 3}, R: gen.False()}}
+		case "unevaluable":
+			// a formal condition that cannot be evaluated to a boolean (unknown
+			// variable, non-boolean result, foreign syntax) is not true: the
+			// flows listed after it are still considered
+			f.Cond = gen.Raw([]string{"undefinedVariable9 > 1", "1 + 1", "${x}"}[ci%3])
+			truth = false
+			bt.Uneval = true
 		case "informal":
 			// an informal expression cannot be evaluated: it counts as true
 			f.Cond = gen.Lit(truth)
@@ -306,7 +315,7 @@ func runCase(d descriptor) *result {
 			}
 		}
 	}
-	if len(otherErr) > 0 {
+	if len(otherErr) > 0 && !bt.Uneval {
 		return fail("unexpected-error", fmt.Sprintf("%v", otherErr))
 	}
 	if bt.Expect != "" {
@@ -464,7 +473,7 @@ func TestC04Random(t *testing.T) {
 		if d.DefPos >= 0 {
 			d.DefCond = rapid.SampledFrom([]string{"", "", "false", "true"}).Draw(rt, "defCond")
 		}
-		kinds := []string{"var", "cmp", "compound", "informal"}
+		kinds := []string{"var", "cmp", "compound", "informal", "var", "cmp", "unevaluable"}
 		if d.Lang == "expr" {
 			// (the repository's own XPath getDataObject test is skipped as "doesn't quite work yet")
 			kinds = append(kinds, "dataobject")
